@@ -14,6 +14,10 @@ def run(ctx):
     runs = [("seq", 400 if quick else 6000, 40, 0, []),
             ("seq", 60 if quick else 600, 300, 1, [])]
     r = codec.run_art("C01", ctx, runs)
-    violations, known = codec.verdict("C01", r)
+    def search():
+        # other seeds, three times as many cases
+        ctx2 = dict(ctx); ctx2["seed"] = ctx["seed"] + 7919
+        return codec.run_art("C01", ctx2, [(m, c * 3, n, so, ex) + tuple(rest) for (m, c, n, so, ex, *rest) in runs if m not in ("data",)])
+    violations, known = codec.verdict("C01", r, search=search)
     r.update({"violations": violations, "known": known})
     return r
